@@ -26,6 +26,9 @@ theorem initOf_wf (E : Loc) (h : E.Canon) : WF (initOf E) := by
     exact this
   · exact h
 
+theorem initOf_ne_empty (E : Loc) : initOf E ≠ .empty := by
+  unfold initOf; split <;> simp
+
 theorem toLoc_initOf (E : Loc) : toLoc (initOf E) = some E := by
   obtain ⟨bs, st⟩ := E
   unfold initOf
@@ -78,7 +81,7 @@ theorem initOnChunk (bs : List Blk) (st : Strand) (W : Win) (hW : winOk W = true
     simp only [h0, bind, Except.bind] at h1
     have := initializeLocation_initOf bs st l E h0 h2
     subst this
-    rw [chunkDown_explicit _ (initOf_wf E (mkCompoundLoc_canon h2)) W hW] at h1
+    rw [chunkDown_explicit _ (initOf_wf E (mkCompoundLoc_canon h2)) (initOf_ne_empty E) W hW] at h1
     exact ⟨(Except.ok.inj h1).symm, _, rfl⟩
 
 /-- **the constructor on a chunk**: `WFC`, and the chromosome-level members are exactly those the constructor
